@@ -10,7 +10,7 @@
     ckptLost     commands/checkpoint.rs:get_checkpoint_entry_for_file — the `from_checkpoint` read of the latest
                  entry's blob: `.unwrap_or_default()` = `.empty`; anything that mentions the current content = `.current`
     initialLost  what a reader of INITIAL does with a claim whose RECORDED snapshot cannot be read:
-                 git/repo_storage.rs:read_initial_attributions drops such claims = `.drop` (/repo 0b914ae9, df0a718d);
+                 git/repo_storage.rs:read_initial_attributions drops such claims = `.drop` (/repo 225ad875);
                  otherwise the readers
                  (checkpoint.rs `initial_snapshot.unwrap_or_else(|| current_content.clone())`,
                  virtual_attribution.rs:from_just_working_log `line_attributions_to_attributions(line_attrs, &file_content)`)
